@@ -8,6 +8,8 @@ import (
 	"strconv"
 	"strings"
 
+	ysgo "github.com/remieven/ysgo"
+
 	"verifharness/sx"
 )
 
@@ -16,10 +18,13 @@ import (
 // so that choices are in range when (and only when) an option group is waiting, and junk otherwise.
 
 func init() {
-	register("flow", family{gen: func(r *rand.Rand, tier string) *sx.Node { return genRunnerCase(r, flowCfg, opsCfg{steps: 40, extraAfterEnd: 2}) }, run: runRunnerCase})
+	register("flow", family{gen: func(r *rand.Rand, tier string) *sx.Node {
+		return genRunnerCase(r, flowCfg, opsCfg{steps: 40, extraAfterEnd: 2})
+	}, run: runRunnerCase})
 	varsCfg := flowCfg
 	varsCfg.wSet, varsCfg.wDeclare, varsCfg.wLine, varsCfg.wOpts, varsCfg.wIf, varsCfg.wJump, varsCfg.wStop, varsCfg.wCmd = 9, 3, 5, 2, 2, 1, 0, 0
 	varsCfg.faultPct, varsCfg.typeFaultPct, varsCfg.maxNodes = 4, 12, 2
+	varsCfg.loopPct, varsCfg.bareSetPct = 50, 35
 	register("vars", family{gen: func(r *rand.Rand, tier string) *sx.Node {
 		return genRunnerCase(r, varsCfg, opsCfg{steps: 30, extraAfterEnd: 1, hostWrites: true, vals: true, storer: 1})
 	}, run: runRunnerCase})
@@ -40,14 +45,16 @@ func init() {
 	}, run: runRunnerCase})
 	visitCfg := flowCfg
 	visitCfg.wJump, visitCfg.wStop, visitCfg.visitLines, visitCfg.maxNodes, visitCfg.wCmd = 7, 0, true, 5, 0
+	visitCfg.neverPct = 35
 	register("visits", family{gen: func(r *rand.Rand, tier string) *sx.Node {
-		return genRunnerCase(r, visitCfg, opsCfg{steps: 40, extraAfterEnd: 1, snapshots: true, runners: 1})
+		return genRunnerCase(r, visitCfg, opsCfg{steps: 40, extraAfterEnd: 1, snapshots: true, runners: 1, snapFreq: 3})
 	}, run: runRunnerCase})
 	register("exprs", family{gen: genExprCase, run: runRunnerCase})
 	register("cmdargs", family{gen: genCmdArgsCase, run: runRunnerCase})
 	register("concurrent", family{gen: genConcurrent, run: runConcurrent})
 	renderCfg := flowCfg
 	renderCfg.wLine, renderCfg.wOpts, renderCfg.wSet, renderCfg.wCmd, renderCfg.wStop, renderCfg.wJump, renderCfg.faultPct, renderCfg.exprDepth = 9, 7, 3, 0, 0, 1, 3, 3
+	renderCfg.markupText, renderCfg.replPct = true, 8
 	register("render", family{gen: func(r *rand.Rand, tier string) *sx.Node {
 		return genRunnerCase(r, renderCfg, opsCfg{steps: 30, extraAfterEnd: 1})
 	}, run: runRunnerCase})
@@ -58,6 +65,7 @@ func init() {
 	}, run: runLayouts})
 	rndCfg := flowCfg
 	rndCfg.randomFns, rndCfg.wCmd, rndCfg.wStop, rndCfg.faultPct = true, 0, 0, 0
+	rndCfg.randomPct = 25
 	register("random", family{gen: func(r *rand.Rand, tier string) *sx.Node {
 		return genRunnerCase(r, rndCfg, opsCfg{steps: 30, extraAfterEnd: 1})
 	}, run: runRepeated})
@@ -87,6 +95,10 @@ func ownSeedToInt64(seed string) (int64, bool) {
 }
 
 func randomSeed(r *rand.Rand) string {
+	if r.Intn(8) == 0 {
+		// seeds whose integer is 0 or wraps to it, leading zeros, the longest strings
+		return []string{"0", "000", "00000000000000", "1y2p0ij32e8e8", "3w5e11264sgsg", "zzzzzzzzzzzzzz", "1", "01", "a", "0a"}[r.Intn(10)]
+	}
 	const alphabet = "0123456789abcdefghijklmnopqrstuvwxyz"
 	n := 1 + r.Intn(14)
 	b := make([]byte, n)
@@ -114,6 +126,7 @@ type opsCfg struct {
 	snapshots     bool
 	runners       int
 	vals          bool
+	snapFreq      int // one snapshot operation every snapFreq steps on average (default 4)
 }
 
 var junkChoices = []int64{0, 1, 7, -1, 1 << 40}
@@ -178,6 +191,8 @@ func genRunnerCase(r *rand.Rand, cfg genCfg, oc opsCfg) *sx.Node {
 }
 
 // adaptiveOps drives the implementation to produce an operation sequence whose choices are valid.
+// Every operation - snapshots and restores included - is applied to real runners through the same
+// execState.apply the executor uses, so the driver always knows what each runner waits for.
 func adaptiveOps(r *rand.Rand, c *sx.Node, oc opsCfg) []*sx.Node {
 	ops := []*sx.Node{}
 	storerMode := c.L[2].L[1].Int() != 0
@@ -187,20 +202,31 @@ func adaptiveOps(r *rand.Rand, c *sx.Node, oc opsCfg) []*sx.Node {
 	}
 	nr := int(c.L[6].L[1].Int())
 	texts := caseTexts(c)
-	runners := []*hostRunner{}
+	st := &execState{snaps: map[int]*ysgo.Snapshot{}}
 	for i := 0; i < nr; i++ {
 		h, err := newHostRunner(storerMode, c.L[3].Args(), c.L[1].L[1].Text(), hcmds, append([]*sx.Node{}, c.L[5].Args()...), texts)
 		if err != nil {
 			return ops
 		}
-		runners = append(runners, h)
+		st.runners = append(st.runners, h)
+	}
+	nodeNames := []string{}
+	for _, n := range c.L[7].L[1].L {
+		for _, h := range n.L[1].L {
+			if h.L[0].Text() == "title" {
+				nodeNames = append(nodeNames, h.L[1].Text())
+			}
+		}
 	}
 	waiting := make([]int, nr) // number of options the runner waits on, 0 = none
 	ended := make([]int, nr)
 	nsnaps := 0
+	do := func(op *sx.Node) *sx.Node {
+		ops = append(ops, op)
+		return st.apply(op)
+	}
 	for step := 0; step < oc.steps; step++ {
 		ri := r.Intn(nr)
-		h := runners[ri]
 		// host-side operations between steps
 		if oc.hostWrites && storerMode && r.Intn(5) == 0 {
 			name := []string{"n1", "n2", "b1", "s1", "host"}[r.Intn(5)]
@@ -213,33 +239,46 @@ func adaptiveOps(r *rand.Rand, c *sx.Node, oc opsCfg) []*sx.Node {
 			default:
 				v = strLit("h" + strconv.Itoa(r.Intn(3)))
 			}
-			op := sx.Tag("hset", sx.Int(int64(ri)), sx.Str(name), v)
-			ops = append(ops, op)
-			switch v.TagName() {
-			case "num":
-				h.storer.SetNumberValue(name, numberOf(v))
-			case "bool":
-				h.storer.SetBooleanValue(name, v.L[1].Int() != 0)
-			default:
-				h.storer.SetStringValue(name, v.L[1].Text())
-			}
+			do(sx.Tag("hset", sx.Int(int64(ri)), sx.Str(name), v))
 		}
 		if oc.vals && storerMode && r.Intn(4) == 0 {
-			ops = append(ops, sx.Tag("vals", sx.Int(int64(ri))))
+			do(sx.Tag("vals", sx.Int(int64(ri))))
 		}
-		if oc.snapshots && r.Intn(4) == 0 {
-			switch x := r.Intn(10); {
+		if oc.snapshots && r.Intn(oc.snapEvery()) == 0 {
+			switch x := r.Intn(12); {
 			case x < 4:
-				ops = append(ops, sx.Tag("snap", sx.Int(int64(ri)), sx.Int(int64(nsnaps))))
+				do(sx.Tag("snap", sx.Int(int64(ri)), sx.Int(int64(nsnaps))))
 				nsnaps++
-			case x < 7 && nsnaps > 0:
-				ops = append(ops, sx.Tag("readsnap", sx.Int(int64(r.Intn(nsnaps)))))
+			case x < 6 && nsnaps > 0:
+				do(sx.Tag("readsnap", sx.Int(int64(r.Intn(nsnaps)))))
+			case x < 7:
+				// a snapshot made by the host: any node name (known or not), any maps
+				node := "Nowhere"
+				if r.Intn(4) != 0 && len(nodeNames) > 0 {
+					node = nodeNames[r.Intn(len(nodeNames))]
+				}
+				vars := []*sx.Node{}
+				for _, n := range []string{"n1", "s1", "b2", "extra"} {
+					if r.Intn(2) == 0 {
+						vars = append(vars, sx.List(sx.Str(n), []*sx.Node{numLit(float64(r.Intn(5))), strLit("m"), boolLit(true)}[r.Intn(3)]))
+					}
+				}
+				counts := []*sx.Node{}
+				for _, n := range append(append([]string{}, nodeNames...), "Ghost") {
+					if r.Intn(3) == 0 {
+						counts = append(counts, sx.List(sx.Str(n), sx.Int(int64(r.Intn(4)))))
+					}
+				}
+				do(sx.Tag("mksnap", sx.Int(int64(nsnaps)), sx.Str(node), sx.List(vars...), sx.List(counts...)))
+				nsnaps++
 			case nsnaps > 0:
-				// restoring changes what the runner waits for: stop driving adaptively here and
-				// let the caller rebuild (the driver below handles it by replaying)
-				k := r.Intn(nsnaps)
-				ops = append(ops, sx.Tag("restore", sx.Int(int64(ri)), sx.Int(int64(k))))
-				return append(ops, replayTail(r, c, ops, oc, step)...)
+				if out := do(sx.Tag("restore", sx.Int(int64(ri)), sx.Int(int64(r.Intn(nsnaps))))); out.TagName() == "ok" {
+					waiting[ri] = 0
+				}
+				if r.Intn(3) == 0 {
+					do(sx.Tag("snap", sx.Int(int64(ri)), sx.Int(int64(nsnaps)))) // a snapshot straight after a restore
+					nsnaps++
+				}
 			}
 		}
 		var choice int64
@@ -248,18 +287,15 @@ func adaptiveOps(r *rand.Rand, c *sx.Node, oc opsCfg) []*sx.Node {
 		} else {
 			choice = junkChoices[r.Intn(len(junkChoices))]
 		}
-		ops = append(ops, sx.Tag("next", sx.Int(int64(ri)), sx.Int(choice)))
-		out := h.next(int(choice))
+		out := do(sx.Tag("next", sx.Int(int64(ri)), sx.Int(choice)))
 		switch out.TagName() {
 		case "opts":
 			waiting[ri] = len(out.L[2].L)
 		case "end":
 			waiting[ri] = 0
 			ended[ri]++
-			if ended[ri] > oc.extraAfterEnd {
-				if nr == 1 {
-					return ops
-				}
+			if ended[ri] > oc.extraAfterEnd && nr == 1 && !oc.snapshots {
+				return ops
 			}
 		case "wait":
 			// keeps waiting for the same thing
@@ -270,59 +306,11 @@ func adaptiveOps(r *rand.Rand, c *sx.Node, oc opsCfg) []*sx.Node {
 	return ops
 }
 
-// replayTail continues an operation sequence after a restore: it re-executes the operations so far
-// on fresh runners (through the same executor the check uses) to learn what each runner waits for.
-func replayTail(r *rand.Rand, c *sx.Node, ops []*sx.Node, oc opsCfg, step int) []*sx.Node {
-	tail := []*sx.Node{}
-	nr := int(c.L[6].L[1].Int())
-	if oc.steps > step+7 {
-		oc.steps = step + 7 // every step of the tail replays the whole case
+func (oc opsCfg) snapEvery() int {
+	if oc.snapFreq > 0 {
+		return oc.snapFreq
 	}
-	for ; step < oc.steps; step++ {
-		probe := *c
-		probe.L = append([]*sx.Node{}, c.L...)
-		probe.L[10] = sx.Tag("ops", append(append([]*sx.Node{}, ops...), tail...)...)
-		res := runRunnerCase(&probe)
-		if len(res.L) < 3 {
-			return tail
-		}
-		obs := res.L[2].L
-		// what does each runner wait for now?
-		waiting := make([]int, nr)
-		all := append(append([]*sx.Node{}, ops...), tail...)
-		for i, op := range all {
-			if i >= len(obs) {
-				break
-			}
-			switch op.TagName() {
-			case "next":
-				ri := int(op.L[1].Int())
-				switch obs[i].TagName() {
-				case "opts":
-					waiting[ri] = len(obs[i].L[2].L)
-				case "wait":
-				default:
-					waiting[ri] = 0
-				}
-			case "restore":
-				if obs[i].TagName() == "ok" {
-					waiting[int(op.L[1].Int())] = 0
-				}
-			}
-		}
-		ri := r.Intn(nr)
-		var choice int64
-		if waiting[ri] > 0 {
-			choice = int64(r.Intn(waiting[ri]))
-		} else {
-			choice = junkChoices[r.Intn(len(junkChoices))]
-		}
-		tail = append(tail, sx.Tag("next", sx.Int(int64(ri)), sx.Int(choice)))
-		if r.Intn(6) == 0 {
-			tail = append(tail, sx.Tag("readsnap", sx.Int(0)))
-		}
-	}
-	return tail
+	return 4
 }
 
 // genExprCase: one node of <<call p("r<i>", EXPR)>> statements over deep expressions (C02): the value
@@ -543,9 +531,9 @@ func standardLayouts(seed int64) []*layout {
 		mk(func(l *layout) { l.unit = "        " }),
 		mk(func(l *layout) { l.unit = "\t" }),
 		mk(func(l *layout) { l.nl = "\r\n"; l.unit = "   " }),
-		mk(func(l *layout) { l.blankProb = 100 }),                      // a blank / comment line before EVERY line
+		mk(func(l *layout) { l.blankProb = 100 }), // a blank / comment line before EVERY line
 		mk(func(l *layout) { l.blankProb = 100; l.unit = "\t"; l.nl = "\r\n" }),
-		mk(func(l *layout) { l.parens = 1; l.wordOps = 1 }),             // maximal parentheses, word operators
+		mk(func(l *layout) { l.parens = 1; l.wordOps = 1 }), // maximal parentheses, word operators
 		mk(func(l *layout) { l.parens = 2; l.wordOps = 0; l.cmdSpaces = 100; l.trailingCmt = 100 }),
 		mk(func(l *layout) { l.wordOps = 2; l.cmdSpaces = 50 }),
 	}
@@ -589,6 +577,7 @@ func genConcurrent(r *rand.Rand, tier string) *sx.Node {
 	}
 	cfg := flowCfg
 	cfg.randomFns, cfg.waitCmd, cfg.wStop = true, false, 0
+	cfg.markupText, cfg.replPct, cfg.firstLineRepl = true, 25, true
 	cases := []*sx.Node{}
 	for i := 0; i < k; i++ {
 		c := genRunnerCase(rand.New(rand.NewSource(r.Int63())), cfg, opsCfg{steps: 16, extraAfterEnd: 1})
